@@ -82,7 +82,23 @@ package omniwitness
 //@   atcall[C12.main] runRestDistributors: $arg8 == operatorConfig.WitnessVerifier && $arg6 == operatorConfig.RestDistributorBaseURL
 //@   atcall[C12.main,C16.main] NewServer: $arg1 == witness
 //@   // the bastion feeder's configuration
+//@   atcall[C12.main,C10.main] Go@2: forall j int :: 0 <= j && j < len(bc.Logs) ==> bc.Logs[j].ID == ID(bc.Logs[j].Origin)
 //@   atcall[C12.main,C10.main] Go@2: bc.Logs == logs && bc.WitnessVerifier == operatorConfig.WitnessVerifier && bc.Addr == operatorConfig.BastionAddr && bw.w == witness
 //@   invariant#1 0 <= $i && $i <= len(logCfg.Logs) && len(logs) == $i
 //@   invariant#1 forall j int :: 0 <= j && j < $i ==> logs[j].ID == ID(logCfg.Logs[j].Origin) && logs[j].Origin == logCfg.Logs[j].Origin
 //@   decreases#1 len(logCfg.Logs) - $i
+
+// The goroutine Main starts per configured log (closure capturing c, f, bw, ...): the log's feed function is applied to
+// that log's own configuration, the adapter around the witness and the configured interval.
+//@ func Main$1
+//@   returns (err)
+//@   modifies heap
+//@   atcall[C12.main,C13.main] $dynamic: $arg2 == c && boxed($arg3) == bw && $arg4 == httpClient && $arg5 == operatorConfig.FeedInterval
+
+// The bastion goroutine: FeedBastion gets the configuration Main built and the adapter.
+//@ func Main$2
+//@   returns (err)
+//@   // established by Main where it starts this goroutine (its atcall Go@2 clauses)
+//@   requires forall j int :: 0 <= j && j < len(bc.Logs) ==> bc.Logs[j].ID == ID(bc.Logs[j].Origin)
+//@   modifies heap
+//@   atcall[C12.main,C10.main] FeedBastion: $arg2 == bc && boxed($arg3) == bw
